@@ -94,7 +94,7 @@ Proof.
   destruct (x <? 0) eqn:E; lia.
 Qed.
 
-Theorem try_sending_refines : forall src es amount sd,
+Theorem try_sending_refines : forall src es amount (sd : list entry),
   eval_esrc vs asset src = Some es ->
   match_draw (try_sending_up_to vs cache asset src amount sd) (draw bal es amount sd).
 Proof.
@@ -172,7 +172,7 @@ Variable cache : balances.
 Variable asset : string.
 Let bal (a : string) : Z := bget cache a asset.
 
-Theorem try_sending_exact_refines src es n sd :
+Theorem try_sending_exact_refines src es n (sd : list entry) :
   eval_esrc vs asset src = Some es ->
   match draw bal es n sd with
   | Drawn g p => try_sending_exact vs cache asset src n sd = (if g =? n then Ok p else Err (MissingFundsErr asset n g))
@@ -237,7 +237,7 @@ Proof.
     + eexists. split; [reflexivity|]. right. eexists. reflexivity.
 Qed.
 
-Theorem send_all_refines : forall src es sd,
+Theorem send_all_refines : forall src es (sd : list entry),
   eval_esrc vs asset src = Some es -> match_drain (send_all vs cache asset src sd) (drain bal es sd).
 Proof.
   induction src as [|e|r l IHl|r items IHi|r f c IH|r a b] using source_ind'; intros es sd Hev.
